@@ -506,7 +506,7 @@ def alphabet_c(sid, thorough):
     evs = []
     for r in des:
         evs.append(('get', r))
-        for v in ('', 'A', 'B'):
+        for v in ('', 'A', 'B', ' '):          # ' ': a blank value is a value (not an empty position)
             evs.append(('set', r, v))
     return evs
 
@@ -736,7 +736,7 @@ def run(R):
         'open (executed, not judged): element index 00, component index 0, trailing slash, empty components, a component index without an element index, a qualifier or bare index with neither segment id nor loop ids, /NN',
         'a zero-padded component index (-01) must parse to the value and re-parse equal after printing, but the printed text is not compared (suite pins format() "-1" and sub-element ids "-01")',
         'a loop whose id has the shape of a segment id (997: AK2, AK3...) may read back as seg_id (documented in path.py)',
-        'Segment: values are "", A, B (no separators, no None); get_value of a missing position is None and of a multi-component element is the joined wire value (suite); whole-element reads of multi-component ISA elements and designators without an element index are not judged',
+        'Segment: values are "", A, B and a single blank (no separators, no None); get_value of a missing position is None and of a multi-component element is the joined wire value (suite); whole-element reads of multi-component ISA elements and designators without an element index are not judged',
     ]
     return R.finish(LEVEL, 'complete enumeration of the bounded path language + every map node + BFS over set/get histories; an outcome is distinct by (class, shape of the path, result) / (segment kind, operation, designator kind, result)',
                     exhaustive=True)
